@@ -185,6 +185,7 @@ def diagnose(r):
     elif r.get("call") == "gssvx":
         chk("xerbla", r["xerbla"] == 0); chk("threads", r["thr1"] == r["thr0"]); chk("A scaling relation", r["Aok"] == 1)
         chk("B scaling relation", r["Bok"] == 1); chk("perm_c bijection", r["permc"] == 1)
+        chk("guard zones of the workspace", r.get("guard", 1) == 1)
         if r["fact"] != "EQUILIBRATE":
             chk("A unchanged", r["Aunch"] == 1)
         if r["lwmode"] == -1:
